@@ -365,4 +365,156 @@ theorem removal_resumes_same (limit nR n : Nat) (env : Model.Persist.Env) (w : W
   rw [hkk]
   exact removeLoop_congr limit nR env w _ f P _ _ hkk
 
+
+-- ------------------------------------------------------------------ C18: the removal iteration under faults
+
+/-- the removal step reads the keystore view only through lookups: two views with the same lookups (the key
+    cache is a Go map: its iteration order is immaterial) and the same node give the same step -/
+theorem removable_congr {own own' : Own} (h : ∀ a, AMap.get own' a = AMap.get own a) :
+    Model.Remove.removable own' = Model.Remove.removable own := by
+  funext s addrs tx
+  unfold Model.Remove.removable
+  simp only [h]
+
+theorem removeStep_ctx_congr {c c' : Ctx} (ho : ∀ a, AMap.get c'.own a = AMap.get c.own a) (hn : c'.node = c.node)
+    (limit : Nat) (w : Wid) (addrs : List Addr) (s : Store) :
+    Model.Remove.removeStep limit c' w addrs s = Model.Remove.removeStep limit c w addrs s := by
+  have hr := removable_congr ho
+  have hu : Model.Remove.unminedStep c'.own = Model.Remove.unminedStep c.own := by
+    funext addrs acc h
+    unfold Model.Remove.unminedStep
+    rw [hr]
+  have hm : Model.Remove.minedStep c' = Model.Remove.minedStep c := by
+    funext addrs acc e
+    unfold Model.Remove.minedStep
+    rw [hr, hn]
+  unfold Model.Remove.removeStep Model.Remove.removeRelevantTx Model.Remove.removeUnminedTxs Model.Remove.removeMinedTxs
+  rw [hu, hm]
+
+
+theorem amap_get_perm {K V : Type} [DecidableEq K] {m m' : AMap.T K V} (hp : m'.Perm m)
+    (hn : (m.map (·.1)).Nodup) (k : K) : AMap.get m' k = AMap.get m k := by
+  have hn' : (m'.map (·.1)).Nodup := ((hp.map (·.1)).nodup_iff).2 hn
+  cases hg : AMap.get m k with
+  | none =>
+    rw [amap_get_none_iff] at hg ⊢
+    exact fun hm => hg (((hp.map (·.1)).mem_iff).1 hm)
+  | some v => exact amap_get_of_mem hn' (hp.mem_iff.2 (amap_mem_of_get hg))
+
+/-- the cache entry of `w` evicted by DeleteKeystore and reloaded by UpdateManagedKeystores: the cache is the
+    same map (the entry moved to the front of the association list) and the keystore view reads the same -/
+theorem reload_view {keys : AMap.T Wid KsRec} {w : Wid} {r : KsRec} (hg : AMap.get keys w = some r)
+    (hnw : (walletsOf keys).Nodup) (hna : ((ownOf keys).map (·.1)).Nodup) (a : Addr) :
+    AMap.get (ownOf ((w, r) :: AMap.erase keys w)) a = AMap.get (ownOf keys) a := by
+  obtain ⟨l₁, l₂, he, her⟩ := amap_split hnw hg
+  apply amap_get_perm _ hna
+  rw [her, ownOf_cons]
+  conv => rhs; rw [he, ownOf_append, ownOf_cons]
+  rw [ownOf_append]
+  exact List.perm_append_comm_assoc _ _ _
+
+/-- the volatile state a failed FINISHING iteration leaves behind: cache entry reloaded (moved to the front),
+    wallet in use reset -/
+def reloaded (V : PVol) (w : Wid) (r : KsRec) : PVol :=
+  { V with keys := (w, r) :: AMap.erase V.keys w, cur := if V.cur = some w then none else V.cur }
+
+theorem reloaded_idem (V : PVol) (w : Wid) (r : KsRec) : reloaded (reloaded V w r) w r = reloaded V w r := by
+  unfold reloaded
+  have : AMap.erase ((w, r) :: AMap.erase V.keys w) w = AMap.erase V.keys w := by
+    have : AMap.erase ((w, r) :: AMap.erase V.keys w) w = AMap.erase (AMap.erase V.keys w) w := by
+      unfold AMap.erase; simp [List.filter]
+    rw [this, erase_erase]
+  simp only [this]
+  by_cases hc : V.cur = some w <;> simp [hc]
+
+/-- C18, ONE failed attempt of a removal iteration (fault at ANY call index, or an ordinary error): the store is
+    unchanged; the volatile state is unchanged too, unless the iteration was the FINISHING one and the fault hit
+    the commit — then DeleteKeystore had evicted the cache entry and UpdateManagedKeystores reloaded it -/
+theorem removeStep_fault (limit nR : Nat) (env : Model.Persist.Env) (w : Wid) (addrs : List Addr) (j : Nat) (P : PStore)
+    (V : PVol) (r : KsRec) (hr : AMap.get P.ks w = some r) (hk : AMap.get V.keys w = some r)
+    (h : ((opRemoveStep limit nR env w addrs).run (some j) P V).ok = false) :
+    ((opRemoveStep limit nR env w addrs).run (some j) P V).P = P ∧
+    (((opRemoveStep limit nR env w addrs).run (some j) P V).V = V ∨
+     (∃ o, Model.Remove.removeStep limit (ctxOf env V) w addrs P.led = some o ∧ o.finish = true ∧
+        ((opRemoveStep limit nR env w addrs).run (some j) P V).V = reloaded V w r)) := by
+  refine ⟨run_fail_store _ _ _ _ h, ?_⟩
+  have h3 : ¬ (1 + nR ≤ j ∧ j < 1 + nR + 0) := by omega
+  have he : AMap.get (AMap.erase V.keys w) w = none := by rw [AMap.get_erase]; simp
+  unfold Op.run at h ⊢
+  simp only [opRemoveStep, runPhases, h3, if_false] at h ⊢
+  by_cases h0 : j = 0
+  · left; subst h0; simp [hr, hk]
+  · have h0' : ¬ (some j = some 0) := by simpa using h0
+    simp only [h0', if_false] at h ⊢
+    by_cases h1 : 1 ≤ j ∧ j < 1 + nR
+    · left; simp [h1, hr, hk]
+    · simp only [h1, if_false] at h ⊢
+      cases hs : Model.Remove.removeStep limit (ctxOf env V) w addrs P.led with
+      | none => left; simp [hr, hk]
+      | some o =>
+        simp only [hs] at h ⊢
+        by_cases h2 : j = 1 + nR
+        · subst h2
+          by_cases hf : o.finish = true
+          · right
+            refine ⟨o, rfl, hf, ?_⟩
+            simp [hf, AMap.get_erase, dropCached, hr, he, reloaded, AMap.put, erase_erase]
+          · left
+            simp [hf, hr, hk]
+        · have h2' : ¬ (some j = some (1 + nR)) := by simpa using h2
+          simp [h2, h2'] at h
+
+
+theorem dropCached_reloaded (V : PVol) (w : Wid) (r : KsRec) : dropCached (reloaded V w r) w = dropCached V w := by
+  unfold dropCached reloaded
+  have : AMap.erase ((w, r) :: AMap.erase V.keys w) w = AMap.erase V.keys w := by
+    have : AMap.erase ((w, r) :: AMap.erase V.keys w) w = AMap.erase (AMap.erase V.keys w) w := by
+      unfold AMap.erase; simp [List.filter]
+    rw [this, erase_erase]
+  simp only [this]
+  by_cases hc : V.cur = some w <;> simp [hc]
+
+/-- the fault-free FINISHING iteration does not see whether the cache entry was evicted and reloaded before -/
+theorem removeStep_reloaded (limit nR : Nat) (env : Model.Persist.Env) (w : Wid) (addrs : List Addr) (P : PStore)
+    (V : PVol) (r : KsRec) (hr : AMap.get P.ks w = some r) (hk : AMap.get V.keys w = some r)
+    (hnw : (walletsOf V.keys).Nodup) (hna : ((ownOf V.keys).map (·.1)).Nodup)
+    (o : Model.Remove.StepOut) (hs : Model.Remove.removeStep limit (ctxOf env V) w addrs P.led = some o)
+    (hf : o.finish = true) :
+    (opRemoveStep limit nR env w addrs).run none P (reloaded V w r) = (opRemoveStep limit nR env w addrs).run none P V := by
+  have hk' : AMap.get (reloaded V w r).keys w = some r := by simp [reloaded, AMap.get_cons]
+  have hctx : Model.Remove.removeStep limit (ctxOf env (reloaded V w r)) w addrs P.led =
+      Model.Remove.removeStep limit (ctxOf env V) w addrs P.led :=
+    removeStep_ctx_congr (c := ctxOf env V) (c' := ctxOf env (reloaded V w r))
+      (fun a => reload_view hk hnw hna a) rfl limit w addrs P.led
+  rw [removeStep_none limit nR env w addrs P (reloaded V w r) r r hr hk', removeStep_none limit nR env w addrs P V r r hr hk,
+    hctx, hs]
+  simp only [hf, if_true, dropCached_reloaded]
+  rfl
+
+/-- C18 RETRY_EQUIV, removal iteration: after any number of failed attempts (fault at any call index each) the
+    retry IS the fault-free iteration — same result, same committed store (no credit of the wallet deleted twice
+    or skipped, the keystore deleted exactly when the step finishes), same volatile state -/
+theorem removeStep_retry (limit nR : Nat) (env : Model.Persist.Env) (w : Wid) (addrs : List Addr) (P : PStore)
+    (js : List Nat) (V : PVol) (r : KsRec) (hr : AMap.get P.ks w = some r) (hk : AMap.get V.keys w = some r)
+    (hnw : (walletsOf V.keys).Nodup) (hna : ((ownOf V.keys).map (·.1)).Nodup)
+    (hf : allFail (opRemoveStep limit nR env w addrs) js P V = true) :
+    (opRemoveStep limit nR env w addrs).run none P (attempts (opRemoveStep limit nR env w addrs) js P V) =
+      (opRemoveStep limit nR env w addrs).run none P V := by
+  have hinv := attempts_inv (opRemoveStep limit nR env w addrs) P
+    (fun V'' => V'' = V ∨ (∃ o, Model.Remove.removeStep limit (ctxOf env V) w addrs P.led = some o ∧ o.finish = true ∧
+      V'' = reloaded V w r))
+    (fun j V'' hi hfail => by
+      rcases hi with rfl | ⟨o, ho, hfin, rfl⟩
+      · rcases (removeStep_fault limit nR env w addrs j P V'' r hr hk hfail).2 with h | ⟨o, ho, hfin, h⟩
+        · exact Or.inl h
+        · exact Or.inr ⟨o, ho, hfin, h⟩
+      · have hk' : AMap.get (reloaded V w r).keys w = some r := by simp [reloaded, AMap.get_cons]
+        rcases (removeStep_fault limit nR env w addrs j P (reloaded V w r) r hr hk' hfail).2 with h | ⟨_, _, _, h⟩
+        · exact Or.inr ⟨o, ho, hfin, h⟩
+        · exact Or.inr ⟨o, ho, hfin, by rw [h, reloaded_idem]⟩) js V (Or.inl rfl) hf
+  rcases hinv with h | ⟨o, ho, hfin, h⟩
+  · rw [h]
+  · rw [h]
+    exact removeStep_reloaded limit nR env w addrs P V r hr hk hnw hna o ho hfin
+
 end MW.Lemmas.Deepen3
